@@ -203,7 +203,7 @@ func IsCallTo(f *types.Func, args ...VPred) VPred {
 			if p == nil {
 				continue
 			}
-			if i >= len(as) || !p(as[i]) {
+			if i >= len(as) || !(p(as[i]) || p(Strip(as[i]))) {
 				return false
 			}
 		}
@@ -642,6 +642,72 @@ func IsCallInstrTo(fs ...*types.Func) func(ssa.Instruction) bool {
 // ---------------------------------------------------------------------------
 // Provenance
 
+var derivesActive = map[*ssa.Function]bool{}
+
+// derivesThroughReturn: result #idx of the call derives from src when the values returned by the
+// callee do (parameters substituted by the arguments). Zero-value constants among the returned
+// values are neutral as long as some returned value derives. decided=false when the callee cannot
+// be inspected.
+func derivesThroughReturn(call *ssa.Call, idx int, src VPred, all bool, seen map[ssa.Value]bool, depth int) (bool, bool) {
+	callee := call.Call.StaticCallee()
+	if !inModule(callee) || derivesActive[callee] || len(derivesActive) >= 2 {
+		return false, false
+	}
+	derivesActive[callee] = true
+	defer delete(derivesActive, callee)
+	saved := ParamSubst
+	ns := map[ssa.Value]ssa.Value{}
+	for k, v := range saved {
+		ns[k] = v
+	}
+	for i, p := range callee.Params {
+		if i < len(call.Call.Args) {
+			ns[p] = call.Call.Args[i]
+		}
+	}
+	ParamSubst = ns
+	defer func() { ParamSubst = saved }()
+	nOK, nBad, nRet := 0, 0, 0
+	AllInstrs(callee, func(in ssa.Instruction) {
+		ret, ok := in.(*ssa.Return)
+		if !ok || idx >= len(ret.Results) {
+			return
+		}
+		nRet++
+		v := ret.Results[idx]
+		if k, isK := v.(*ssa.Const); isK && (k.Value == nil || isZeroConst(k)) {
+			return
+		}
+		if derives(v, src, all, seen, depth+1) {
+			nOK++
+		} else {
+			nBad++
+		}
+	})
+	if nRet == 0 {
+		return false, false
+	}
+	if all {
+		return nOK > 0 && nBad == 0, true
+	}
+	return nOK > 0, true
+}
+
+func isZeroConst(k *ssa.Const) bool {
+	if k.Value == nil {
+		return true
+	}
+	switch k.Value.Kind() {
+	case constant.String:
+		return constant.StringVal(k.Value) == ""
+	case constant.Int:
+		return constant.Sign(k.Value) == 0
+	case constant.Bool:
+		return !constant.BoolVal(k.Value)
+	}
+	return false
+}
+
 // Derives reports whether v derives from a value satisfying src, walking backwards through
 // value-preserving instructions. mode "all": every incoming phi edge must derive; "any": some.
 func Derives(v ssa.Value, src VPred, all bool) bool {
@@ -659,6 +725,15 @@ func derives(v ssa.Value, src VPred, all bool, seen map[ssa.Value]bool, depth in
 		return all // a cycle contributes nothing new
 	}
 	seen[v] = true
+	if w, ok := ParamSubst[v]; ok && w != v {
+		return derives(w, src, all, seen, depth+1)
+	}
+	// the result of an extracted helper: every returned value derives (zero constants are neutral)
+	if rc, ri := resultCall(v); rc != nil && depth < 30 {
+		if ok, decided := derivesThroughReturn(rc, ri, src, all, seen, depth); decided {
+			return ok
+		}
+	}
 	switch x := v.(type) {
 	case *ssa.ChangeType:
 		return derives(x.X, src, all, seen, depth+1)
@@ -841,8 +916,38 @@ func DominatingConds(fn *ssa.Function, sink ssa.Instruction) map[ssa.Value]bool 
 }
 
 // assumedCuts: edges of fn contradicting Assumed (conditions resolved through ParamSubst).
+// AssumeFn, when set, gives the truth value of normalised condition atoms that are fixed for the
+// duration of a query (for instance "the request kind equals K"): branches contradicting it are
+// pruned, also inside guard-wrapper summaries.
+var AssumeFn func(a CondAtom) (known bool, val bool)
+
+// AssumedCuts: the edges of fn that contradict the current assumptions.
+func AssumedCuts(fn *ssa.Function) map[Edge]bool { return assumedCuts(fn) }
+
 func assumedCuts(fn *ssa.Function) map[Edge]bool {
 	out := map[Edge]bool{}
+	if AssumeFn != nil {
+		for _, b := range fn.Blocks {
+			if len(b.Instrs) == 0 {
+				continue
+			}
+			ifi, ok := b.Instrs[len(b.Instrs)-1].(*ssa.If)
+			if !ok {
+				continue
+			}
+			a := substTop(NormCond(ifi.Cond))
+			known, val := AssumeFn(a)
+			if !known {
+				continue
+			}
+			// cond is true iff atom == !Negated
+			if val != a.Negated {
+				out[Edge{b, 1}] = true
+			} else {
+				out[Edge{b, 0}] = true
+			}
+		}
+	}
 	if len(Assumed) == 0 {
 		return out
 	}
@@ -1015,9 +1120,49 @@ func summariseWrapper(b *ssa.BasicBlock, a CondAtom, depth int, guards []Guard, 
 	if !inModule(callee) || callee == b.Parent() {
 		return
 	}
-	if idx >= callee.Signature.Results().Len() {
-		return
+	classForAtomTrue := 1
+	if kind == "nil" {
+		classForAtomTrue = -1
 	}
+	for _, atomVal := range []bool{true, false} {
+		cls := classForAtomTrue
+		if !atomVal {
+			cls = -classForAtomTrue
+		}
+		ok, innerCnt := CalleeImplies(call, idx, kind, cls, depth, guards, nil)
+		if !ok {
+			continue
+		}
+		for gi := range guards {
+			if innerCnt[gi] > 0 {
+				counts[gi]++
+			}
+		}
+		condVal := atomVal != a.Negated
+		if condVal {
+			edges[Edge{b, 0}] = true
+		} else {
+			edges[Edge{b, 1}] = true
+		}
+	}
+}
+
+var implyActive = map[*ssa.Function]bool{}
+
+// CalleeImplies: whenever result #idx of the call has class cls (kind "bool": +1 true / -1 false;
+// kind "nil": -1 nil / +1 non-nil), the callee's execution passed a pass edge of one of the guards
+// (a disjunction), also through returned results of further predicate calls (depth-bounded).
+// Callee parameters are substituted by the call's arguments while its body is inspected. When
+// startsOf yields edges for the callee, only paths from those edges are considered (bool kind).
+// The second result counts, per guard, the matches found inside.
+func CalleeImplies(call *ssa.Call, idx int, kind string, cls int, depth int, guards []Guard, startsOf func(*ssa.Function) map[Edge]bool) (bool, []int) {
+	zero := make([]int, len(guards))
+	callee := call.Call.StaticCallee()
+	if depth > 3 || !inModule(callee) || implyActive[callee] || idx >= callee.Signature.Results().Len() {
+		return false, zero
+	}
+	implyActive[callee] = true
+	defer delete(implyActive, callee)
 	// parameter substitution for the duration of the summary
 	saved := ParamSubst
 	ns := map[ssa.Value]ssa.Value{}
@@ -1075,11 +1220,11 @@ func summariseWrapper(b *ssa.BasicBlock, a CondAtom, depth int, guards []Guard, 
 			}
 			return
 		}
-		cls := retClass(v, kind)
+		c := retClass(v, kind)
 		if neg {
-			cls = -cls
+			c = -c
 		}
-		pts = append(pts, point{at, cls, via, v, neg})
+		pts = append(pts, point{at, c, via, v, neg})
 	}
 	AllInstrs(callee, func(in ssa.Instruction) {
 		ret, ok := in.(*ssa.Return)
@@ -1089,112 +1234,129 @@ func summariseWrapper(b *ssa.BasicBlock, a CondAtom, depth int, guards []Guard, 
 		expand(ret.Results[idx], false, ret, nil, 0)
 	})
 	if len(pts) == 0 {
-		return
+		return false, zero
 	}
 	// joint evaluation: the guards form a disjunction (any pass edge discharges)
 	cut, innerCnt := passEdgesDepth(callee, depth+1, guards...)
 	for e := range assumedCuts(callee) {
 		cut[e] = true
 	}
-	// nil-kind summaries are evaluated path-sensitively inside the callee
-	var nilReachRets map[*ssa.Return]map[int]bool // return -> set of classes it can yield on uncut paths
 	if kind == "nil" {
-		nilReachRets = map[*ssa.Return]map[int]bool{}
+		// evaluated path-sensitively inside the callee
+		reachCls := false
+		anyRet := false
 		NilWalk(callee, nil, cut, nil, func(in ssa.Instruction, f NilFacts) {
 			ret, ok := in.(*ssa.Return)
 			if !ok || idx >= len(ret.Results) {
 				return
 			}
-			if nilReachRets[ret] == nil {
-				nilReachRets[ret] = map[int]bool{}
-			}
-			if k, n := Nilness(ret.Results[idx], f); k {
-				if n {
-					nilReachRets[ret][-1] = true
-				} else {
-					nilReachRets[ret][1] = true
+			anyRet = true
+			v := ret.Results[idx]
+			if k, n := Nilness(v, f); k {
+				if (n && cls == -1) || (!n && cls == 1) {
+					reachCls = true
 				}
-			} else if c := retClass(ret.Results[idx], kind); c != 0 {
-				nilReachRets[ret][c] = true
-			} else {
-				nilReachRets[ret][-1] = true
-				nilReachRets[ret][1] = true
+				return
 			}
+			if c := retClass(v, kind); c != 0 {
+				if c == cls {
+					reachCls = true
+				}
+				return
+			}
+			// the result of a further error-returning helper
+			if rc, ri := resultCall(v); rc != nil {
+				if ok, cnt := CalleeImplies(rc, ri, kind, cls, depth+1, guards, nil); ok {
+					for i := range cnt {
+						innerCnt[i] += cnt[i]
+					}
+					return
+				}
+			}
+			reachCls = true
 		})
+		if !anyRet {
+			// every path panics or the walk found no return on uncut paths: the class cannot occur
+			hasRet := false
+			AllInstrs(callee, func(in ssa.Instruction) {
+				if _, ok := in.(*ssa.Return); ok {
+					hasRet = true
+				}
+			})
+			return hasRet, innerCnt
+		}
+		return !reachCls, innerCnt
 	}
-	reach := ReachBlocks(callee, nil, cut)
+	var starts []*ssa.BasicBlock
+	if startsOf != nil {
+		for e := range startsOf(callee) {
+			starts = append(starts, e.From.Succs[e.Idx])
+		}
+	}
+	reach := ReachBlocks(callee, starts, cut)
 	// a returned boolean that is itself a guard atom: returning it with the passing value discharges
-	atomPass := func(v ssa.Value, neg bool, cls int) bool {
+	atomPass := func(v ssa.Value, neg bool) bool {
 		a2 := substTop(NormCond(v))
-		for _, g := range guards {
+		for gi, g := range guards {
 			if m, passVal := g.Match(a2); m {
 				// returned r = (atom XOR a2.Negated) XOR neg; class +1 means r true
 				atomVal := ((cls == 1) != a2.Negated) != neg
 				if atomVal == passVal {
+					innerCnt[gi]++
 					return true
 				}
 			}
 		}
 		return false
 	}
-	implied := func(cls int) bool {
-		if kind == "nil" {
-			any := false
-			for _, classes := range nilReachRets {
-				if classes[cls] {
-					return false
-				}
-			}
-			// at least one return of that class exists at all
-			AllInstrs(callee, func(in ssa.Instruction) {
-				if _, ok := in.(*ssa.Return); ok {
-					any = true
-				}
-			})
-			return any
-		}
-		any := false
-		for _, p := range pts {
-			if p.cls != cls && p.cls != 0 {
-				continue
-			}
-			any = true
-			if p.via != nil && cut[*p.via] {
-				continue
-			}
-			if p.cls == 0 && p.val != nil && atomPass(p.val, p.neg, cls) {
-				continue
-			}
-			if reach[p.at.Block()] {
-				return false
-			}
-		}
-		return any
-	}
-	classForAtomTrue := 1
-	if kind == "nil" {
-		classForAtomTrue = -1
-	}
-	for _, atomVal := range []bool{true, false} {
-		cls := classForAtomTrue
-		if !atomVal {
-			cls = -classForAtomTrue
-		}
-		if !implied(cls) {
+	any := false
+	for _, p := range pts {
+		if p.cls != cls && p.cls != 0 {
 			continue
 		}
-		for gi := range guards {
-			if innerCnt[gi] > 0 {
-				counts[gi]++
+		any = true
+		if p.via != nil && cut[*p.via] {
+			continue
+		}
+		if !reach[p.at.Block()] {
+			continue
+		}
+		if p.cls == 0 && p.val != nil {
+			if atomPass(p.val, p.neg) {
+				continue
+			}
+			// the result of a further predicate
+			if rc, ri := resultCall(p.val); rc != nil {
+				want := cls
+				if p.neg {
+					want = -cls
+				}
+				if ok, cnt := CalleeImplies(rc, ri, kind, want, depth+1, guards, startsOf); ok {
+					for i := range cnt {
+						innerCnt[i] += cnt[i]
+					}
+					continue
+				}
 			}
 		}
-		condVal := atomVal != a.Negated
-		if condVal {
-			edges[Edge{b, 0}] = true
-		} else {
-			edges[Edge{b, 1}] = true
+		return false, innerCnt
+	}
+	return any, innerCnt
+}
+
+// resultCall: v is result #i of a static call of a module function.
+func resultCall(v ssa.Value) (*ssa.Call, int) {
+	switch x := v.(type) {
+	case *ssa.Call:
+		if inModule(x.Call.StaticCallee()) {
+			return x, 0
+		}
+	case *ssa.Extract:
+		if c, ok := x.Tuple.(*ssa.Call); ok && inModule(c.Call.StaticCallee()) {
+			return c, x.Index
 		}
 	}
+	return nil, 0
 }
 
 // MustPass: every path from the entry of fn to a return executes an instruction satisfying pred
